@@ -6,6 +6,7 @@ import (
 	"fmt"
 	"go/ast"
 	"go/token"
+	"go/types"
 	"sort"
 	"strings"
 
@@ -1111,6 +1112,34 @@ func init() {
 				}
 				nilStore = storesNil(cdp, 0)
 				s.Check(nilStore, "port/cleanDefaultPort", c.P.Pos(cdp.Pos()), "stores nil into port", "never clears the port")
+				// what the elision decides on: if a branch of it reads the cached number instead of the port itself, "never
+				// the default port" holds only as far as the cache follows the port — the obligations of PAIR-group
+				var cacheRead ssa.Instruction
+				var scan func(f *ssa.Function, depth int)
+				scan = func(f *ssa.Function, depth int) {
+					for _, b := range f.Blocks {
+						for _, ins := range b.Instrs {
+							if ld, ok := ins.(*ssa.UnOp); ok && ld.Op == token.MUL && cacheRead == nil {
+								if _, ok := fieldAddrOf(ld.X, "Url:decodedPort"); ok && reachesBranch(ld, 0) {
+									cacheRead = ld
+								}
+							}
+							if call, ok := ins.(*ssa.Call); ok && depth < 2 {
+								if h := call.Common().StaticCallee(); h != nil && len(h.Blocks) > 0 && namedOf(recvType(h)) == "Url" && len(call.Common().Args) > 0 && call.Common().Args[0] == ssa.Value(f.Params[0]) {
+									scan(h, depth+1)
+								}
+							}
+						}
+					}
+				}
+				scan(cdp, 0)
+				if cacheRead != nil {
+					sup := brokenSupport(c, []string{"PAIR-group:group/port+decodedPort/"})
+					s.Check(sup == "", "port/cleanDefaultPort/decides-on", c.P.Pos(cacheRead.Pos()), "the elision decides on the cached number decodedPort, which every writer of port keeps in step (PAIR-group)",
+						"the elision decides on the cached number decodedPort, and the cache does not follow the port everywhere ("+sup+"): a default port survives where the cache is stale", "C04")
+				} else {
+					s.OK("port/cleanDefaultPort/decides-on", c.P.Pos(cdp.Pos()), "the elision decides on the port itself", "C04")
+				}
 			}
 			// other writers of port
 			for _, f := range c.P.ModFns {
@@ -1145,8 +1174,8 @@ func init() {
 
 	register(&Rule{
 		Name:  "PAIR-strip",
-		Doc:   "every exported *Url method that stores nil into query or fragment strips the trailing spaces of an opaque path on every path on which the other of the two is nil as well",
-		Props: []string{"C03"},
+		Doc:   "every exported *Url method that stores nil into query or fragment strips the trailing spaces of an opaque path on every path on which the other of the two is nil as well; and conversely, wherever such a method strips, query and fragment are both nil there (forward nil-ness analysis over the method with its helpers and getters inlined): an empty but present query or fragment keeps the spaces",
+		Props: []string{"C03", "C05"},
 		Floor: 2,
 		Run: func(c *Ctx, s *core.Sink) {
 			for _, f := range c.P.ExportedAPI() {
@@ -1200,6 +1229,7 @@ func init() {
 						}
 					}
 				}
+				stripOnlyWhenBothNil(c, s, f)
 			}
 		},
 	})
@@ -1246,6 +1276,228 @@ func init() {
 			}
 		},
 	})
+}
+
+// reachesBranch: the value feeds the condition of a branch (through arithmetic, comparisons, conversions and calls).
+func reachesBranch(v ssa.Value, depth int) bool {
+	if depth > 6 || v.Referrers() == nil {
+		return false
+	}
+	for _, r := range *v.Referrers() {
+		switch x := r.(type) {
+		case *ssa.If:
+			return true
+		case *ssa.BinOp:
+			if reachesBranch(x, depth+1) {
+				return true
+			}
+		case *ssa.UnOp:
+			if reachesBranch(x, depth+1) {
+				return true
+			}
+		case *ssa.Convert:
+			if reachesBranch(x, depth+1) {
+				return true
+			}
+		case *ssa.Phi:
+			if reachesBranch(x, depth+1) {
+				return true
+			}
+		case *ssa.Call:
+			if reachesBranch(x, depth+1) {
+				return true
+			}
+		}
+	}
+	return false
+}
+
+// stripOnlyWhenBothNil: the converse clause of PAIR-strip. A forward analysis of the nil-ness of u.query and u.fragment
+// over the method with its unexported helpers and the Url getters inlined: 0 = unknown, 1 = nil, 2 = not nil. A store
+// of nil makes the component nil, any other store and any call that is not looked through and may write the component
+// makes it unknown, a branch on `u.x == nil` refines it. At every call of stripTrailingSpacesIfOpaque on u.path both
+// must be nil (the standard strips only when the URL has neither a query nor a fragment; an empty one counts as
+// present).
+func stripOnlyWhenBothNil(c *Ctx, s *core.Sink, f *ssa.Function) {
+	u := ssa.Value(f.Params[0])
+	helpers := urlHelpers(c)
+	follow := func(g *ssa.Function) bool {
+		if helpers(g) {
+			return true
+		}
+		// getters of Url: exported methods that store nothing and call nothing of the module but getters
+		if !c.P.InModule(g) || namedOf(recvType(g)) != "Url" || g.Parent() != nil || len(g.Blocks) == 0 || len(g.Blocks) > 12 {
+			return false
+		}
+		for _, b := range g.Blocks {
+			for _, ins := range b.Instrs {
+				switch x := ins.(type) {
+				case *ssa.Store:
+					if _, isAlloc := x.Addr.(*ssa.Alloc); !isAlloc {
+						return false
+					}
+				case ssa.CallInstruction:
+					if cl := x.Common().StaticCallee(); cl == nil || c.P.InModule(cl) {
+						return false
+					}
+				}
+			}
+		}
+		return true
+	}
+	g := flatten(c, f, follow, 3)
+	isStrip := func(m *fnode, x ssa.Instruction) bool {
+		cc, ok := isCallTo(x, "path", "stripTrailingSpacesIfOpaque")
+		if !ok {
+			return false
+		}
+		y, ok := loadOfField(cc.Args[0], "Url:path")
+		return ok && m.Root(y) == u
+	}
+	has := false
+	for _, n := range g.Nodes {
+		for _, ins := range n.Instrs {
+			if isStrip(n, ins) {
+				has = true
+			}
+		}
+	}
+	if !has {
+		return
+	}
+	// may the callee (transitively, within the module) store into Url.query / Url.fragment?
+	memo := map[*ssa.Function]bool{}
+	var mayWrite func(fn *ssa.Function, depth int) bool
+	mayWrite = func(fn *ssa.Function, depth int) bool {
+		if v, ok := memo[fn]; ok {
+			return v
+		}
+		memo[fn] = false
+		if len(fn.Blocks) == 0 {
+			return false
+		}
+		if depth > 8 {
+			memo[fn] = true
+			return true
+		}
+		res := false
+		for _, b := range fn.Blocks {
+			for _, ins := range b.Instrs {
+				switch x := ins.(type) {
+				case *ssa.Store:
+					if fa, ok := x.Addr.(*ssa.FieldAddr); ok {
+						if el := fieldElem(fa.X.Type(), fa.Field); el == "Url:query" || el == "Url:fragment" {
+							res = true
+						}
+					}
+					// a store through a pointer to a whole Url
+					if namedOf(x.Val.Type()) == "Url" {
+						if _, isPtr := x.Val.Type().Underlying().(*types.Pointer); !isPtr {
+							res = true
+						}
+					}
+				case ssa.CallInstruction:
+					cl := x.Common().StaticCallee()
+					if cl == nil {
+						if x.Common().IsInvoke() || true {
+							// dynamic callee: user callbacks get strings, not the URL; interface methods of the module do not exist
+							continue
+						}
+					}
+					if c.P.InModule(cl) && mayWrite(cl, depth+1) {
+						res = true
+					}
+				}
+			}
+		}
+		memo[fn] = res
+		return res
+	}
+	type st [2]int // query, fragment
+	join := func(a, b st) st {
+		var r st
+		for i := range r {
+			if a[i] == b[i] {
+				r[i] = a[i]
+			}
+		}
+		return r
+	}
+	in := map[*fnode]st{}
+	reached := map[*fnode]bool{g.Entry: true}
+	work := []*fnode{g.Entry}
+	elems := []string{"Url:query", "Url:fragment"}
+	type bad struct {
+		ins ssa.Instruction
+		st  st
+	}
+	verdict := map[ssa.Instruction]st{}
+	var order []ssa.Instruction
+	for iter := 0; len(work) > 0 && iter < 20000; iter++ {
+		n := work[0]
+		work = work[1:]
+		cur := in[n]
+		for _, ins := range n.Instrs {
+			if isStrip(n, ins) {
+				if old, ok := verdict[ins]; ok {
+					verdict[ins] = join(old, cur)
+				} else {
+					verdict[ins] = cur
+					order = append(order, ins)
+				}
+				continue
+			}
+			switch x := ins.(type) {
+			case *ssa.Store:
+				if fa, ok := x.Addr.(*ssa.FieldAddr); ok {
+					el := fieldElem(fa.X.Type(), fa.Field)
+					for i, e := range elems {
+						if el != e {
+							continue
+						}
+						if n.Root(fa.X) == u && isNilConst(x.Val) {
+							cur[i] = 1
+						} else {
+							cur[i] = 0
+						}
+					}
+				}
+			case ssa.CallInstruction:
+				if cl := x.Common().StaticCallee(); cl != nil && c.P.InModule(cl) && mayWrite(cl, 0) {
+					cur = st{}
+				}
+			}
+		}
+		for si, succ := range n.Succs {
+			out := cur
+			if n.If != nil {
+				for i, e := range elems {
+					if x, trueIsNil, ok := nilTest(n.If.Cond, e); ok && n.Root(x) == u {
+						if (si == 0) == trueIsNil {
+							out[i] = 1
+						} else {
+							out[i] = 2
+						}
+					}
+				}
+			}
+			if !reached[succ] {
+				reached[succ] = true
+				in[succ] = out
+				work = append(work, succ)
+			} else if j := join(in[succ], out); j != in[succ] {
+				in[succ] = j
+				work = append(work, succ)
+			}
+		}
+	}
+	for k, ins := range order {
+		v := verdict[ins]
+		key := fmt.Sprintf("strip-only/%s#%d", core.FuncName(f), k+1)
+		names := []string{"unknown", "nil", "present"}
+		s.Check(v[0] == 1 && v[1] == 1, key, c.P.Pos(ins.Pos()), "query and fragment are both nil wherever the trailing spaces of the opaque path are stripped",
+			fmt.Sprintf("the trailing spaces of an opaque path are stripped where query is %s and fragment is %s: the standard strips only when both are null, an empty query or fragment still follows the path and keeps the spaces", names[v[0]], names[v[1]]), "C05")
+	}
 }
 
 // keepsExisting: the stored value is a merge each of whose edges is the list the field already holds (a load of the
